@@ -346,7 +346,8 @@ def compare(chk, rec, stats, label):
     Returns True when the model claims the case (no abstention) and agrees everywhere."""
     f, r, me, mp = rec["fmt"], rec["real"], rec["m_emit"], rec["m_parse"]
     case = {"fmt": f, "cfg": rec["cfg"], "ir": rec["irj"]}
-    unsupported = bool(r["notes"])
+    unsupported = bool(r["notes"])  # constructs in the real trees that the model's AST does not record
+    abstained = False  # the model itself declined (emit or parse): no claim, but never an excuse for the other stage
     ok = True
 
     def dis(what, impl, model):
@@ -359,7 +360,7 @@ def compare(chk, rec, stats, label):
     if "error" in me:
         if me["error"].startswith("unsupported"):
             stats[(label, f, "emit", "abstain: " + me["error"][13:50])] += 1
-            unsupported = True
+            abstained = True
         elif r.get("emit_raises") == me["error"]:
             stats[(label, f, "emit", "both raise " + me["error"])] += 1
         elif unsupported:
@@ -389,7 +390,7 @@ def compare(chk, rec, stats, label):
             stats[(label, f, "emit", "agree")] += 1
     # ---- parse (of the REAL re-parsed tree)
     if "reparsed" not in r:
-        return ok and not unsupported
+        return ok and not unsupported and not abstained
     doc_raises = [n for n in r["notes"] if n.startswith("docstring parse raises ")]
     if doc_raises:
         exc = doc_raises[0].split()[-1]
@@ -399,9 +400,9 @@ def compare(chk, rec, stats, label):
             dis("parse: docstring layer raises but the parser does not", r.get("parse_raises", "returns"), exc)
         return False
     if "error" in mp:
-        if mp["error"].startswith("unsupported") or mp["error"].startswith("unsupported value type"):
+        if mp["error"].startswith("unsupported"):
             stats[(label, f, "parse", "abstain: " + mp["error"][13:50])] += 1
-            unsupported = True
+            abstained = True
         elif r.get("parse_raises") == mp["error"]:
             stats[(label, f, "parse", "both raise " + mp["error"])] += 1
         elif unsupported or has_other(r.get("doc_ir")):
@@ -411,7 +412,7 @@ def compare(chk, rec, stats, label):
     elif "ok" not in mp:
         if has_other(r.get("doc_ir")) or has_other(r.get("parsed")):
             stats[(label, f, "parse", "abstain: value type outside the codec")] += 1
-            unsupported = True
+            abstained = True
         else:
             raise core.HarnessError("driver: %s" % str(mp)[:300])
     elif "parse_raises" in r:
@@ -429,7 +430,7 @@ def compare(chk, rec, stats, label):
             stats[(label, f, "parse", "outside model (noted construct)")] += 1
         else:
             dis("parsed IR", b, a)
-    return ok and not unsupported
+    return ok and not unsupported and not abstained
 
 
 def evaluate(chk, rec, sig_counts, witness_of=None):
